@@ -173,6 +173,11 @@ func (c *Cache) refresh() error {
 		return true
 	}
 
+	seen := c.watch.unwatchedDirs(c.specDirs, nil)
+	defer func() {
+		c.watch.seen = c.watch.unwatchedDirs(c.specDirs, seen)
+	}()
+
 	_ = scanSpecDirs(c.specDirs, func(path string, priority int, spec *Spec, err error) error {
 		path = filepath.Clean(path)
 		if err != nil {
@@ -487,6 +492,10 @@ func (c *Cache) GetSpecDirErrors() map[string]error {
 type watch struct {
 	watcher *fsnotify.Watcher
 	tracked map[string]bool
+	// seen records the directories which were not being watched but did
+	// exist during the last refresh. Nothing tells us if such a directory
+	// changes or goes away, so failing to start watching it forces a refresh.
+	seen map[string]bool
 }
 
 // Setup monitoring for the given Spec directories.
@@ -570,6 +579,24 @@ func (w *watch) watch(fsw *fsnotify.Watcher, m *sync.Mutex, refresh func() error
 	}
 }
 
+// unwatchedDirs returns the directories which are currently not being
+// watched and either exist now or are already present in seen.
+func (w *watch) unwatchedDirs(dirs []string, seen map[string]bool) map[string]bool {
+	if w == nil || w.watcher == nil || w.tracked == nil {
+		return nil
+	}
+	present := map[string]bool{}
+	for _, dir := range dirs {
+		if w.tracked[dir] {
+			continue
+		}
+		if _, err := os.Stat(dir); err == nil || seen[dir] {
+			present[dir] = true
+		}
+	}
+	return present
+}
+
 // Update watch with pending/missing or removed directories.
 func (w *watch) update(dirErrors map[string]error, removed ...string) bool {
 	var (
@@ -600,6 +627,11 @@ func (w *watch) update(dirErrors map[string]error, removed ...string) bool {
 		} else {
 			w.tracked[dir] = false
 			dirErrors[dir] = fmt.Errorf("failed to monitor for changes: %w", err)
+			if w.seen[dir] {
+				// it was there when we last looked but we were not watching it
+				delete(w.seen, dir)
+				update = true
+			}
 		}
 	}
 
